@@ -1233,3 +1233,174 @@ instance decPunctual : (evs : List Ev) → (l : L) → Decidable (Punctual l evs
     exact @instDecidableAnd _ _ _ (decPunctual evs _)
 
 end Coap.Sim
+
+/-! ## conservation on M: every `coap_send` is pending or has had exactly one outcome -/
+namespace Coap.Sim
+open Coap Coap.SQ Coap.Msg Coap.Timer
+
+/-- number of `coap_send` calls for (s, mid) -/
+def subC (s mid : Nat) : List Ev → Nat
+  | [] => 0
+  | ev :: r => (match ev with
+      | .submit s' _ m' _ => if s' = s ∧ m' = mid then 1 else 0
+      | _ => 0) + subC s mid r
+
+/-- 1 if the output is an outcome NACK (too many retries / RST, carrying the sent PDU) of (s, mid) -/
+def nackW (s mid : Nat) (o : Out) : Nat :=
+  match obsM o with
+  | some (.nackRetries _ s' m') => if s' = s ∧ m' = mid then 1 else 0
+  | some (.nackRst _ s' m') => if s' = s ∧ m' = mid then 1 else 0
+  | _ => 0
+
+/-- number of outcome NACKs of (s, mid) -/
+def nackC (s mid : Nat) : List Out → Nat
+  | [] => 0
+  | o :: r => nackW s mid o + nackC s mid r
+
+/-- number of nodes of (s, mid) in the send queue -/
+def pendC (s mid : Nat) : List Node → Nat
+  | [] => 0
+  | n :: r => (if n.sess = s ∧ n.mid = mid then 1 else 0) + pendC s mid r
+
+/-- 1 if the event is an ACK for (s, mid) that finds the message in the send queue (the silent completion) -/
+def ackW (s mid : Nat) (l : L) : Ev → Nat
+  | .rxAck s' m' => if (s' = s ∧ m' = mid) ∧ (removeNode l.q.nodes s' m').1 ≠ none then 1 else 0
+  | _ => 0
+
+/-- number of silent completions of (s, mid) along the run -/
+def ackC (s mid : Nat) : L → List Ev → Nat
+  | _, [] => 0
+  | l, ev :: evs => ackW s mid l ev + ackC s mid (Msg.step l ev) evs
+
+/-- S: number of `acked` outputs of (s, mid) -/
+def ackS (s mid : Nat) : List TOut → Nat
+  | [] => 0
+  | o :: r => (match o with
+      | .acked _ s' m' => if s' = s ∧ m' = mid then 1 else 0
+      | _ => 0) + ackS s mid r
+
+/-- S: number of NACK outputs of (s, mid) -/
+def nackS (s mid : Nat) : List TOut → Nat
+  | [] => 0
+  | o :: r => (match o with
+      | .nackRetries _ s' m' => if s' = s ∧ m' = mid then 1 else 0
+      | .nackRst _ s' m' => if s' = s ∧ m' = mid then 1 else 0
+      | _ => 0) + nackS s mid r
+
+/-- number of NACK observations of (s, mid) -/
+def obsN (s mid : Nat) : List Obs → Nat
+  | [] => 0
+  | o :: r => (match o with
+      | .nackRetries _ s' m' => if s' = s ∧ m' = mid then 1 else 0
+      | .nackRst _ s' m' => if s' = s ∧ m' = mid then 1 else 0
+      | _ => 0) + obsN s mid r
+
+theorem oc_split (s mid : Nat) (outs : List TOut) : oc s mid outs = nackS s mid outs + ackS s mid outs := by
+  induction outs with
+  | nil => rfl
+  | cons o r ih => cases o <;> simp only [oc, outW, nackS, ackS, ih] <;> omega
+
+theorem nackS_obs (s mid : Nat) (outs : List TOut) : nackS s mid outs = obsN s mid (outs.filterMap obsS) := by
+  induction outs with
+  | nil => rfl
+  | cons o r ih => cases o <;> simp [nackS, obsS, obsN, List.filterMap_cons, ih]
+
+theorem nackC_obs (s mid : Nat) (out : List Out) : nackC s mid out = obsN s mid (out.filterMap obsM) := by
+  induction out with
+  | nil => rfl
+  | cons o r ih =>
+    simp only [nackC, nackW, List.filterMap_cons, ih]
+    cases ho : obsM o with
+    | none => simp
+    | some b => cases b <;> simp [obsN]
+
+theorem pc_er (s mid : Nat) (l : List (Nat × PMsg)) : pc s mid (l.map er) = pc s mid l := by
+  induction l with
+  | nil => rfl
+  | cons x r ih => simp only [List.map_cons, pc, ih]; rfl
+
+theorem pc_absP (s mid : Nat) (mx : Nat → Nat) (b : Nat) (ns : List Node) :
+    pc s mid (absP mx b ns) = pendC s mid ns := by
+  induction ns generalizing b with
+  | nil => rfl
+  | cons n r ih => simp only [absP, pc, pendC, ih]; rfl
+
+theorem sc_append (s mid : Nat) (a b : List TEv) : sc s mid (a ++ b) = sc s mid a + sc s mid b := by
+  induction a with
+  | nil => simp [sc]
+  | cons e a ih => simp only [List.cons_append, sc, ih]; omega
+
+theorem sc_trRun (s mid : Nat) (evs : List Ev) : ∀ l : L, sc s mid (trRun l evs) = subC s mid evs := by
+  induction evs with
+  | nil => intro l; rfl
+  | cons ev evs ih =>
+    intro l
+    simp only [trRun, sc_append, subC, ih]
+    cases ev <;> simp [tr, sc, sendW]
+
+theorem ackS_fire (s mid : Nat) (f : Nat) (ts : TS) : ackS s mid (fire f ts).outs = ackS s mid ts.outs := by
+  induction f generalizing ts with
+  | zero => rfl
+  | succ f ih =>
+    rcases ts with ⟨now, pend, outs⟩
+    rcases pend with _ | ⟨⟨d, m⟩, r⟩
+    · rfl
+    · simp only [fire]
+      split
+      · split <;> rw [ih] <;> simp [ackS]
+      · rfl
+
+theorem ackS_tick (s mid : Nat) (ts : TS) (t : Nat) :
+    ackS s mid (Timer.step ts (.tick t)).outs = ackS s mid ts.outs := by
+  simp only [Timer.step]
+  split
+  · rw [ackS_fire]
+  · rfl
+
+theorem ackS_send (s mid : Nat) (ts : TS) (s' m' T mx : Nat) :
+    ackS s mid (Timer.step ts (.send s' m' T mx)).outs = ackS s mid ts.outs := by
+  simp [Timer.step, ackS]
+
+theorem ackS_rst (s mid : Nat) (ts : TS) (s' m' : Nat) :
+    ackS s mid (Timer.step ts (.rst s' m')).outs = ackS s mid ts.outs := by
+  simp only [Timer.step]
+  rcases premove ts.pend s' m' with ⟨_ | m, r⟩ <;> simp [ackS]
+
+theorem ackS_ack (s mid : Nat) (ts : TS) (s' m' : Nat) :
+    ackS s mid (Timer.step ts (.ack s' m')).outs =
+      ackS s mid ts.outs + (if (s' = s ∧ m' = mid) ∧ (premove ts.pend s' m').1 ≠ none then 1 else 0) := by
+  simp only [Timer.step]
+  rcases premove ts.pend s' m' with ⟨_ | m, r⟩
+  · simp
+  · by_cases h : s' = s ∧ m' = mid
+    · simp [ackS, h]; omega
+    · simp [ackS, h]
+
+theorem ackS_step {par : Nat → Sess} {P : Nat → Nat → Nat → Prop} (s mid : Nat) (l : L) (ts : TS) (ev : Ev)
+    (hi : Inv par P l) (hr : Rel (mxOf par) l ts) :
+    ackS s mid (Timer.run ts (tr l ev)).outs = ackS s mid ts.outs + ackW s mid l ev := by
+  cases ev with
+  | rxAck s' m' =>
+    have h2 := (remove_sim l ts s' m' hi hr).2.1
+    simp only [tr, Timer.run, List.foldl_cons, List.foldl_nil, ackS_tick, ackS_ack, ackW]
+    by_cases hf : (removeNode l.q.nodes s' m').1 = none
+    · have := h2.1 hf; simp [hf, this]
+    · have : (premove ts.pend s' m').1 ≠ none := fun h => hf (h2.2 h)
+      simp [hf, this]
+  | _ => simp [tr, Timer.run, ackS_tick, ackS_send, ackS_rst, ackW]
+
+theorem ackS_run {par : Nat → Sess} {P : Nat → Nat → Nat → Prop} (hp : ParOk par) (s mid : Nat) :
+    ∀ (evs : List Ev) (l : L) (ts : TS), Inv par P l → Rel (mxOf par) l ts → RunIn l evs →
+      (∀ s mid r, Ev.submit s true mid r ∈ evs → P s mid (calcTimeout (par s).atI (par s).atF (par s).arfI (par s).arfF r)) →
+      ackS s mid (Timer.run ts (trRun l evs)).outs = ackS s mid ts.outs + ackC s mid l evs := by
+  intro evs
+  induction evs with
+  | nil => intro l ts _ _ _ _; simp [trRun, Timer.run, ackC]
+  | cons ev evs ih =>
+    intro l ts hi hr hin hP
+    obtain ⟨hi1, hr1⟩ := step_sim hp l ts ev hi hr hin.1 (fun s mid r h => hP s mid r (by simp [h]))
+    simp only [trRun, timer_run_append, ackC]
+    rw [ih _ _ hi1 hr1 hin.2 (fun s mid r h => hP s mid r (by simp [h])), ackS_step s mid l ts ev hi hr]
+    omega
+
+end Coap.Sim
